@@ -13,7 +13,10 @@ from concurrent.futures import ThreadPoolExecutor
 ROOT = os.path.dirname(os.path.abspath(__file__))
 MIRI_DIR = os.path.join(ROOT, "miri")
 MIRI_DIR_OVERRIDE = None
-BASE_FLAGS = ["-Zmiri-deterministic-floats", "-Zmiri-ignore-leaks", "-Zmiri-disable-stacked-borrows", "-Zmiri-preemption-rate=0.05"]
+BASE_FLAGS = ["-Zmiri-deterministic-floats", "-Zmiri-ignore-leaks", "-Zmiri-disable-stacked-borrows"]
+# preemption probability per basic block, chosen per execution from the Miri seed: coarse slices
+# find races between whole operations, fine slices find windows of a few instructions
+PREEMPTION_RATES = ["0.05", "0.05", "0.2", "0.5"]
 TIMEOUT_S = 900
 
 
@@ -21,7 +24,7 @@ def _env(miri_seed):
     e = dict(os.environ)
     e["CARGO_NET_OFFLINE"] = "true"
     e["CARGO_TERM_COLOR"] = "never"
-    e["MIRIFLAGS"] = " ".join(BASE_FLAGS + ["-Zmiri-seed=%d" % miri_seed])
+    e["MIRIFLAGS"] = " ".join(BASE_FLAGS + ["-Zmiri-preemption-rate=" + PREEMPTION_RATES[miri_seed % 4], "-Zmiri-seed=%d" % miri_seed])
     return e
 
 
@@ -227,7 +230,7 @@ def run_engine(seed, executions, jobs, replay_dir, seeds_per_scenario=4):
     run_wall = max(wall, 1e-9)
     summary = {
         "engine": "M (Miri: seeded instruction-level scheduler, weak-memory emulation, vector-clock data-race detector) over the real a5 code",
-        "flags": BASE_FLAGS + ["-Zmiri-seed=<per execution>"],
+        "flags": BASE_FLAGS + ["-Zmiri-preemption-rate=<0.05|0.05|0.2|0.5 by miri seed mod 4>", "-Zmiri-seed=<per execution>"],
         "executions": len(results),
         "executions_per_hour": int(len(results) / run_wall * 3600),
         "scenario_seeds": n_scn,
